@@ -35,14 +35,38 @@ def run(ctx):
             k += 1
             reqs.append({"op": "restore.load", "dir": os.path.join(base, str(k)), "files": files, "missing": list(miss), "timeoutMs": 4000})
             meta.append((files, list(miss)))
+    # a later failure of the same restore: one blob fails at once, another one 150 ms later (every ordered pair on small trees)
+    for files in trees(ctx.rng, quick)[:5]:
+        pairs = [(a, b) for a in files for b in files if a != b]
+        for a, b in pairs[:6]:
+            k += 1
+            reqs.append({"op": "restore.load", "dir": os.path.join(base, str(k)), "files": files, "missing": [a], "missingSlow": [b], "timeoutMs": 4000})
+            meta.append((files, [a, b]))
     impl = ctx.impl(reqs)
     if impl is None:
         return
+    if any("driver died" in str(x.get("error", "")) or "no reply" in str(x.get("error", "")) for x in impl):
+        # the driver process died (panic in a goroutine / runtime fatal error): find the request that kills it
+        impl2 = []
+        for rq, x in zip(reqs, impl):
+            if "error" in x and "no reply" in str(x["error"]):
+                one = ctx.impl([rq])[0]
+                if "error" in one and "no reply" in str(one["error"]):
+                    one = {"outcome": "crash", "stderr": one.get("stderr", "")[-2500:]}
+                x = one
+            impl2.append(x)
+        impl = impl2
     model = ctx.model([{"op": "errchan.outcome", "nOk": len(f) - len(m), "nFail": len(m), "cap": 1, "drop": True} for f, m in meta])
     hangs = errs = oks = 0
     bad = []
     for rq, (files, miss), x, y in zip(reqs, meta, impl, model):
         o = x.get("outcome")
+        if o == "crash":
+            first = next((l for l in x.get("stderr", "").splitlines() if l.startswith(("panic:", "fatal error:"))), "process died")
+            ctx.violation(f"the process dies during a directory restore with {len(miss)} unreadable blobs of {len(files)}: {first}",
+                          {"kind": "oracle", "oracle": "no internal crash during a restore", "request": rq, "impl": x},
+                          signature="restore-crash:" + first.split(":", 1)[-1].strip().replace(" ", "-")[:60])
+            continue
         if o == "hang":
             hangs += 1
             dirs = {os.path.dirname(f) for f in files if os.path.dirname(f)}
@@ -64,7 +88,8 @@ def run(ctx):
             bad.append((rq, x, y))
     shutil.rmtree(base, ignore_errors=True)
     ctx.coverage["restore_cases"] = len(reqs)
-    ctx.coverage["restore_outcomes"] = {"ok": oks, "error": errs, "hang": hangs}
+    ctx.coverage["restore_outcomes"] = {"ok": oks, "error": errs, "hang": hangs, "crash": sum(1 for x in impl if x.get("outcome") == "crash")}
+    ctx.coverage["restore_late_second_failure_cases"] = sum(1 for r in reqs if r.get("missingSlow"))
     ctx.coverage["restore_disagreements"] = len(bad)
     ctx.coverage["evaluations"] += len(reqs)
     ctx.coverage["distinct_nontrivial"] += len({(tuple(f), len(m)) for f, m in meta if m})
